@@ -206,17 +206,22 @@ def rulesSpan (D : Dec) (s : ESpan) : Rules.Span :=
 def rulesTrace (D : Dec) (t : ETrace) : Rules.Trace :=
   ⟨t.spans.map (rulesSpan D), t.root.map (rulesSpan D)⟩
 
-/-! ## bridge to the trace-key model (typed value = kind + payload; its renderings are external) -/
+/-! ## bridge to the trace-key model: int64 and uint64 are its integer values (rendered as their
+decimal by `AddAsString` and `%v` alike), string / bool / nil its plain values; float64, float32 and
+`[]byte` are values whose two renderings are external (`TraceKey.Ext`, keyed by Go type name and a
+payload: the integer for an integral float, `num/den` otherwise; the bytes) -/
+
+def fracRaw (n : Int) (d : Nat) : String := if d = 1 then toString n else toString n ++ "/" ++ toString d
 
 def toTK : GoVal → TraceKey.Val
-  | .str s => ⟨"s", s⟩
-  | .int n => ⟨"i", toString n⟩
-  | .flt n d => ⟨"f", if d = 1 then toString n else toString n ++ "/" ++ toString d⟩
-  | .bool b => ⟨"b", if b then "1" else "0"⟩
-  | .nil => ⟨"n", ""⟩
-  | .u64 n => ⟨"u", toString n⟩
-  | .f32 n d => ⟨"g", if d = 1 then toString n else toString n ++ "/" ++ toString d⟩
-  | .bin s => ⟨"x", s⟩
+  | .str s => .str s
+  | .int n => .int "int64" n
+  | .flt n d => .ext "float64" (fracRaw n d)
+  | .bool b => .bool b
+  | .nil => .nil
+  | .u64 n => .int "uint64" n
+  | .f32 n d => .ext "float32" (fracRaw n d)
+  | .bin s => .ext "[]uint8" s
 
 def keySpan (D : Dec) (s : ESpan) : TraceKey.Span :=
   (goSpan D s).map fun kv => (kv.1, toTK kv.2)
@@ -253,12 +258,16 @@ structure Samplers where
   dyn : String → Nat → Int
   dintn : Nat → Nat
 
+/-- the rendering of key values: the plain types as the trace-key model defines them, floats and
+other types by the external functions -/
+def Samplers.render (S : Samplers) : TraceKey.Render := TraceKey.renderOf S.x
+
 def downOf (S : Samplers) (kt : TraceKey.Trace) (id : Nat) : Option Rules.DownRes :=
   match S.downs id with
   | .missing => none
   | .fixed d => some d
   | .keyed c ans reason =>
-    let k := TraceKey.key S.cap S.pre S.x c kt
+    let k := TraceKey.key S.cap S.pre S.render c kt
     some ⟨(ans k kt.spans.length).1, (ans k kt.spans.length).2, reason, k⟩
 
 /-- `config.GetKeyFields` on the configured samplers' `GetSamplingFields`: the condition fields of
@@ -289,7 +298,7 @@ def rulesOutcome (S : Samplers) (t : ETrace) : Rules.Decision :=
   Rules.getSampleRate S.E (rulesTrace S.dec t) (downOf S (keyTrace S.dec t)) S.intn S.rules
 
 def dynOutcome (S : Samplers) (t : ETrace) : String × TraceKey.Decision :=
-  TraceKey.getSampleRate S.cap S.pre S.x S.keyCfg (keyTrace S.dec t) S.dyn S.dintn
+  TraceKey.getSampleRate S.cap S.pre S.render S.keyCfg (keyTrace S.dec t) S.dyn S.dintn
 
 def outcome (S : Samplers) (t : ETrace) : Outcome :=
   ⟨rulesOutcome S t, (dynOutcome S t).1, (dynOutcome S t).2⟩
